@@ -309,7 +309,7 @@ def make_case(ctx, idx):
         api = rng.choice(["dom.random", "dom.random", "dom.grid", "dom.random.d", "dom.grid.d", "smp.uniform", "smp.grid", "smp.uniform.f"])
     else:
         api = rng.choice(["dom.random", "dom.random", "dom.grid", "dom.random.d", "dom.grid.d", "smp.uniform", "smp.uniform.d",
-                          "smp.uniform.f", "smp.grid", "smp.grid.f", "smp.gauss", "smp.lhs", "smp.adaptive"])
+                          "smp.uniform.f", "smp.grid", "smp.grid.f", "smp.gauss", "smp.lhs", "smp.adaptive", "smp.adaptive"])
     call = dict(api=api, n=n)
     if api.endswith(".d"):
         call["d"] = 10.0 if mode == "prod" else rng.choice([0.5, 3.7, 10.0])
@@ -486,13 +486,19 @@ def run_impl(case):
             f = lambda: S.LHSSampler(dom, n_points=n).sample_points(params)
         elif api == "smp.adaptive":
             def f():
+                # later calls come with OTHER parameter rows (reversed / shifted): a replaced row must carry the new point together
+                # with the new parameter row, a kept row its old point with its old parameter row
+                params2 = mk_params(tp, names, prows[::-1])
+                params3 = mk_params(tp, names, prows[1:] + prows[:1])
                 smp = S.AdaptiveThresholdRejectionSampler(dom, 0.5, n_points=n)
                 first = smp.sample_points(params=params)
                 loss = torch.linspace(0, 1, len(first))
-                smp.sample_points(unreduced_loss=loss, params=params)
+                smp.sample_points(unreduced_loss=loss, params=params2)
+                smp.sample_points(unreduced_loss=loss.flip(0), params=params3)
                 smp2 = S.AdaptiveRandomRejectionSampler(dom, n_points=n)
                 smp2.sample_points(params=params)
-                second = smp2.sample_points(unreduced_loss=loss, params=params)
+                smp2.sample_points(unreduced_loss=loss, params=params2)
+                second = smp2.sample_points(unreduced_loss=loss.flip(0), params=params3)
                 return smp.last_points | second
         else:
             raise ValueError(api)
